@@ -366,6 +366,7 @@ def ark_w_models(F):
     fns = [
         (r'^<ark_ff::BigInt<\d+> as core::cmp::PartialOrd>::(ge|gt|le|lt)$', m_bigint_cmp),
         (rf'^{W}::from_le_limbs$', m_from_le_limbs), (rf'^{W}::to_le_limbs$', m_to_le_limbs), (rf'^{W}::to_bytes_le$', m_to_bytes_le),
+        (rf'^{W}::from_raw_bytes$', lambda I, fr, fn, a: IV(F, z3.simplify(z3.URem(z3.Concat(*reversed([z3.BitVecVal(x, 8) if isinstance(x, int) else x for x in I.deref(a[0])])), z3.BitVecVal(p, 8 * len(I.deref(a[0]))))))),
         (r'^<.* as ark_serialize::Flags>::from_u8_remove_flags$', m_flags_from_u8), (r'^<.* as ark_serialize::Flags>::u8_bitmask$', m_flags_bitmask),
         (r'^<\[u8; \d+\] as ark_std::iterable::Iterable>::len$', m_iterable_len),
         (r' as (ark_std::io|std::io|ark_serialize)::Read>::read_exact$', m_read_exact), (r' as (ark_std::io|std::io|ark_serialize)::Write>::write_all$', m_write_all),
@@ -416,6 +417,35 @@ def check_w_ark(F):
         got = concat_le(r['result'].fields[0])
         ans, model = _bv_valid(r['path'], got == xv)
         obs.append(Ob(name, 'proved' if ans == 'unsat' else 'violated', '', 0, 'mirsym + z3 QF_BV', None, None if ans == 'unsat' else {'kind': 'into_bigint', 'field': F}))
+    # ---- deserialize_with_mode in all four (Compress, Validate) modes: Ok exactly for the canonical byte strings, with that value
+    try:
+        mit = mirsym.find_item_hdr(items, A + 'deserialize_with_mode$', 'CanonicalDeserialize for')
+        for cm in ('Compress::Yes', 'Compress::No'):
+            for vm in ('Validate::Yes', 'Validate::No'):
+                for L in (nb - 1, nb, nb + 2):
+                    bs = [z3.BitVec(f'b{i}', 8) for i in range(L)]
+                    name = f'ark:{F}::deserialize_with_mode({cm}, {vm}) on a reader holding {L} bytes'
+                    def bodym(I, h, bs=bs, cm=cm, vm=vm):
+                        rd = Reader(bs); h.locals['rd'] = rd
+                        return I.call_item(mit, [rd, Enum('ark_serialize', cm, []), Enum('ark_serialize', vm, [])], generics={'R': 'Reader'})
+                    recs = _run(items, M, bodym, name, obs)
+                    bad = None
+                    for r in recs:
+                        if 'panic' in r: bad = 'panics: ' + r['panic']; break
+                        res = r['result']
+                        if L < nb:
+                            if res.variant != 'Err': bad = 'short input accepted'
+                            continue
+                        val = z3.Concat(*reversed(bs[:nb]))
+                        if res.variant == 'Ok':
+                            v = res.fields[0]
+                            claim = z3.And(z3.ULT(val, P), v.bv == val) if isinstance(v, IV) else z3.BoolVal(False)
+                        else: claim = z3.UGE(val, P)
+                        ans, model = _bv_valid(r['path'], claim)
+                        if ans != 'unsat': bad = f'{res.variant} on a path where the canonical-range rule says otherwise ({ans}); bytes {str(model)[:160]}'; break
+                    if bad: obs.append(Ob(name, 'violated', bad, 0, 'mirsym path + z3 QF_BV', None, {'kind': 'deser_mode', 'field': F, 'mode': f'{cm},{vm}', 'len': L}))
+                    elif recs: obs.append(Ob(name, 'proved', f'{len(recs)} paths', 0, 'mirsym path + z3 QF_BV', {'paths': len(recs)}))
+    except Unsupported as e: obs.append(Ob(f'ark:{F}::deserialize_with_mode', 'inconclusive', str(e), 0, 'mirsym'))
     # ---- deserialize_with_flags / serialize_with_flags / sizes for the three flag types
     dit = mirsym.find_item_hdr(items, A + 'deserialize_with_flags$', 'CanonicalDeserializeWithFlags for')
     sit = mirsym.find_item_hdr(items, A + 'serialize_with_flags$', 'CanonicalSerializeWithFlags for')
